@@ -2030,11 +2030,13 @@ func genGlue() string {
 // configEvents lists, in source order, what a function does with the admin config globals: lock operations on
 // rawCfgMu (`Lock`, `defer:Unlock`, `RLock`, …), calls of the functions that read or change the config
 // (`call:<name>`), and assignments to rawCfgJSON / rawCfgIndex / rawCfg[…] (`set:<name>`). Function literals
-// in the body (restoreOldCfg) are walked in place.
-func configEvents(fd *ast.FuncDecl) []string {
+// in the body (restoreOldCfg) are walked in place, and so are the bodies of package-level helpers of caddy.go /
+// admin.go at their call sites (except the listed config functions themselves, which stay `call:` events).
+func configEvents(fd *ast.FuncDecl, helpers map[string]*ast.FuncDecl) []string {
 	if fd == nil || fd.Body == nil {
 		return nil
 	}
+	stack := []string{fd.Name.Name}
 	calls := map[string]bool{"unsyncedConfigAccess": true, "unsyncedDecodeAndRun": true, "indexConfigObjects": true,
 		"readConfig": true, "changeConfig": true, "makeEtag": true, "etagHasher": true}
 	var out []string
@@ -2052,6 +2054,15 @@ func configEvents(fd *ast.FuncDecl) []string {
 					out = append(out, prefix+"call:"+id.Name)
 				} else if ok && id.Name == "delete" && len(t.Args) > 0 && exprText(t.Args[0]) == "rawCfg" {
 					out = append(out, prefix+"set:rawCfg")
+				} else if callee := helpers[idName(t.Fun)]; ok && callee != nil && callee.Body != nil && len(stack) < 4 && !contains(stack, id.Name) {
+					// a helper of the same package (caddy.go / admin.go): its body counts as if written here
+					for _, a := range t.Args {
+						walk(a, prefix)
+					}
+					stack = append(stack, id.Name)
+					walk(callee.Body, prefix)
+					stack = stack[:len(stack)-1]
+					return false
 				}
 			case *ast.AssignStmt:
 				for _, l := range t.Lhs {
@@ -2106,16 +2117,46 @@ func adminRoutes(fd *ast.FuncDecl) []string {
 	return out
 }
 
+func idName(e ast.Expr) string {
+	if id, ok := e.(*ast.Ident); ok {
+		return id.Name
+	}
+	return ""
+}
+
+func contains(xs []string, x string) bool {
+	for _, y := range xs {
+		if y == x {
+			return true
+		}
+	}
+	return false
+}
+
 func genConfigLocks() string {
 	_, caddyGo := parseFile("caddy.go")
 	_, adminGo := parseFile("admin.go")
+	// package-level functions of the two files, inlined where they are called (a helper extracted from
+	// changeConfig or handleConfig must not hide what it does with the lock or the config)
+	helpers := map[string]*ast.FuncDecl{}
+	for _, f := range []*ast.File{caddyGo, adminGo} {
+		if f == nil {
+			continue
+		}
+		for _, d := range f.Decls {
+			if fd, ok := d.(*ast.FuncDecl); ok && fd.Recv == nil {
+				helpers[fd.Name.Name] = fd
+			}
+		}
+	}
 	row := func(f *ast.File, name string) string {
-		return "  (" + leanStr(name) + ", " + leanStrList(configEvents(findFunc(f, "", name))) + ")"
+		return "  (" + leanStr(name) + ", " + leanStrList(configEvents(findFunc(f, "", name), helpers)) + ")"
 	}
 	return header +
 		"/-- caddy.go / admin.go: per function, in source order, every lock operation on `rawCfgMu` (deferred ones\n" +
 		"    prefixed `defer:`), every call of a function that reads or changes the admin config (`call:<name>`) and\n" +
-		"    every assignment to `rawCfgJSON`, `rawCfgIndex` or `rawCfg[…]` (`set:<name>`; function literals walked in place) -/\n" +
+		"    every assignment to `rawCfgJSON`, `rawCfgIndex` or `rawCfg[…]` (`set:<name>`; function literals walked in place,\n" +
+		"    package-level helpers of the two files inlined at their call sites) -/\n" +
 		"def configLocks : List (String × List String) := [\n" +
 		strings.Join([]string{row(caddyGo, "changeConfig"), row(caddyGo, "readConfig"), row(adminGo, "handleConfig"),
 			row(adminGo, "handleConfigID"), row(adminGo, "unsyncedConfigAccess")}, ",\n") + "\n]\n\n" +
